@@ -46,6 +46,11 @@ let do_off id t =
              (function 1 -> "point closer than d-guard to the group is not covered" | 2 -> "point farther than reach+guard is covered" | _ -> "overlapping outputs")
     | "e" -> shrink_each_verdict g r rin rout,
              (function 1 -> "point deeper than reach+guard inside a polygon was removed" | 2 -> "point shallower than |d|-guard was kept" | _ -> "overlapping outputs")
+    | "r" ->
+        (* overlapping polygons eroded one by one: only "nothing shallower than |d| is kept" *)
+        let never = Z.mul rout (z_of_int 1000000) in
+        (fun p -> let v = shrink_each_verdict g r rin never p in if Z.eqb v (z_of_int 1) then z_of_int 0 else v),
+        (function 2 -> "point shallower than |d|-guard was kept" | _ -> "overlapping outputs")
     | _ ->
         (* probes certainly outside the covered region (and a unit away from every edge) *)
         let outside = List.filter (fun q -> sample_ok g guard q && not (covers g q)) probes in
@@ -82,7 +87,7 @@ let () =
       let t = { a = Array.of_list (words payload); i = 0 } in
       try
         match kind with
-        | "off" -> do_off id t
+        | "off" | "offlit" -> do_off id t
         | "uni" -> do_uni id t
         | _ -> ()
       with e -> out id "S" ("driver-error " ^ Printexc.to_string e));
